@@ -445,6 +445,18 @@ def rule_PL4(ctx, tier):
             rr.ok("receipt accepted only if recover_pk(receipt) == tower_id", sample={"rule": "PL4", "Ok return guarded by": "recovered_id == tower_id"})
         else:
             rr.fail("unverified-appointment-receipt", "send_appointment returns Ok on a path where the receipt's recovered signer is not known to equal the tower id", where=s.line_of(bb))
+    # a well-formed acknowledgement is judged by its signature before anything else: from the `Response` arm every path reaches
+    # recover_pk — no earlier exit (a plausibility check on a field the signature does not cover lets a cheating tower choose to be
+    # treated as merely unreachable, and no proof is ever stored)
+    from .rulekit import always_reaches as _ar
+    rec_sites = {bb for bb, t in s.calls() if (call_target(t) or "").endswith("cryptography::recover_pk")}
+    resp_edges = switch_succ_with(ctx, s, "variant", "Response", "process_post_response")
+    if not rec_sites or not resp_edges:
+        rr.fail("send_appointment-shape:response-arm", "send_appointment: cannot find the Response arm / the recover_pk call (%d/%d)" % (len(resp_edges), len(rec_sites)), where=s.span)
+    elif all(_ar(s, [succ], rec_sites) for sw, succ in resp_edges):
+        rr.ok("every acknowledgement reaches the signature check")
+    else:
+        rr.fail("ack-rejected-before-signature-check", "send_appointment can leave the `Response` arm before recover_pk ran on the receipt: an acknowledgement signed by a key other than the tower's can be answered with an ordinary error instead of SignatureError(proof) — the tower is retried for ever and never flagged", where=s.line_of(resp_edges[0][0]))
     if not oks or not errs:
         rr.fail("send_appointment-shape", "send_appointment: Ok / SignatureError constructions not found (%d/%d)" % (len(oks), len(errs)), where=s.span)
     for bb in errs:
@@ -538,6 +550,38 @@ def rule_PL5(ctx, tier):
             rr.ok("%s == %s" % (shortfn(fn), sorted(exp)), sample={"rule": "PL5", "predicate": fn, "table": t})
         else:
             rr.fail("status-predicate:%s=%s" % (shortfn(fn), ",".join(sorted(good))), "`%s` is true for %s; documented: %s" % (shortfn(fn), sorted(good), sorted(exp)))
+    # Misbehaving is for good: the proof is never deleted, the loader derives Misbehaving from it, and every send gate trusts the
+    # in-memory flag — so the one function that writes an arbitrary status must not replace Misbehaving by anything else (the RPC
+    # commands flag a tower TemporaryUnreachable on any connection error, whatever it was before)
+    from .rulekit import enumerate_paths
+    sts_ = P.bodies.get(WT + "set_tower_status")
+    if sts_ is None:
+        rr.anchor_missing(WT + "set_tower_status")
+    else:
+        wsites = [bb for bb in sts_.rpo() for st_ in sts_.blocks[bb]["s"] if st_["k"] == "assign" and len(st_["d"]) >= 2 and st_["d"][-1] == "f:status"]
+        unguarded = 0
+        npaths_ = 0
+        for blocks, facts, ended in enumerate_paths(ctx, sts_, [0], stop=lambda x: x in wsites):
+            if not (blocks and blocks[-1] in wsites):
+                continue
+            npaths_ += 1
+            okp = False
+            for f in facts:
+                if f[0] != "truth" or not has_call(f[1], "TowerStatus::is_misbehaving"):
+                    continue
+                sh = og.show(f[1])
+                if f[2] is False and "f:status" in sh:
+                    okp = True     # the current status is not Misbehaving
+                if f[2] is True and "param#3@set_tower_status" in sh:
+                    okp = True     # the new status is Misbehaving
+            if not okp:
+                unguarded += 1
+        if wsites and npaths_ and not unguarded:
+            rr.ok("set_tower_status never replaces Misbehaving by another status (%d write paths)" % npaths_)
+        elif not wsites:
+            rr.fail("misbehaving-not-sticky:shape", "cannot find the status write in WTClient::set_tower_status", where=sts_.span)
+        else:
+            rr.fail("misbehaving-not-sticky", "WTClient::set_tower_status writes the requested status on a path where the tower may be Misbehaving and the new status is not: `registertower`, `getsubscriptioninfo` and `getappointment` flag a tower TemporaryUnreachable on a connection error, so a tower with a stored misbehaviour proof becomes retryable again and the next revocation is sent to it", where=sts_.line_of(wsites[0]))
     # every hand-over to the retry manager excludes misbehaving towers: at each send site some TowerStatus
     # predicate fact rules the Misbehaving variant out (decided with the predicate tables above)
     tables = {fn.split("::")[-1]: enum_pred_table(ctx, fn) for fn in want}
@@ -986,6 +1030,8 @@ def rule_PL7(ctx, tier):
     from .rulekit import generated_keys_persisted, ctors_keep_args
     generated_keys_persisted(ctx, rr, ("watchtower_plugin::",), PDBM + "store_client_key", "client")
     ctors_keep_args(ctx, rr, "client")
+    from .rulekit import accessors_return_field
+    accessors_return_field(ctx, rr, ("teos_common::receipts::AppointmentReceipt", "teos_common::receipts::RegistrationReceipt", "teos_common::net::NetAddr"))
     # `abandontower` answers "successfully abandoned" only after WTClient::remove_tower ran
     ab = None
     for bid in P.family("watchtower_client::abandon_tower") if "watchtower_client::abandon_tower" in P.bodies else []:
@@ -1028,6 +1074,9 @@ def rule_PL7(ctx, tier):
                     for op, l, r in rel_of_term(f[1], f[2]):
                         if op == "Eq" and "f:status" in og.show(l) and og.strip(r) == ("param", sts.id, 3):
                             same = True
+                    # the one transition that is refused on purpose: out of Misbehaving (PL5's misbehaving-not-sticky clause)
+                    if f[2] is True and has_call(f[1], "TowerStatus::is_misbehaving") and "f:status" in og.show(f[1]):
+                        same = True
             if not same:
                 skipped.append(blocks)
         if npaths and not skipped:
